@@ -188,10 +188,13 @@ Qed.
 Definition in32 (v : Z) : Prop := 1 <= v < 4294967296.
 Lemma norm32_in v : in32 (norm32 v).
 Proof. unfold in32, norm32. destruct (v mod 4294967296 =? 0) eqn:E; lia. Qed.
+Definition in32z (v : Z) : Prop := 0 <= v < 4294967296.     (* connection ids: 0 included *)
+Lemma wrap32_in v : in32z (wrap32 v).
+Proof. unfold in32z, wrap32. lia. Qed.
 
 (* the success reply data of a Forward Open starts with the O->T connection id *)
 Definition fo_granted {S} (session : Z) (st st' : tstate S) (rp : mr_reply) : Prop :=
-  exists c rest, t_conns st' = c :: t_conns st /\ c_session c = session /\ in32 (c_ot_id c)
+  exists c rest, t_conns st' = c :: t_conns st /\ c_session c = session /\ in32z (c_ot_id c)
                  /\ rp = mr_ok (le_enc 4 (c_ot_id c) ++ rest) /\ blen rest = 22.
 
 Lemma forward_open_spec {S} large session (st : tstate S) rq :
@@ -204,7 +207,7 @@ Proof.
     (split; [reflexivity | split; [reflexivity | split; [reflexivity |]]]);
     try (left; split; [reflexivity | unfold nz; cbn; lia]).
   all: right; eexists; eexists; (split; [reflexivity |]); cbn [c_session c_ot_id];
-    (split; [reflexivity |]); (split; [apply norm32_in |]); (split; [reflexivity |]);
+    (split; [reflexivity |]); (split; [first [apply wrap32_in | apply norm32_in] |]); (split; [reflexivity |]);
     rewrite !blen_app, !blen_le_enc; reflexivity.
 Qed.
 
@@ -288,7 +291,7 @@ Lemma fo_finish {S} session (st0 st : tstate S) rq large svc :
   let r := finish_reply UCMM_CAPACITY svc (with_injection st0 svc (fun s => forward_open large session s rq)) in
   t_sessions (fst r) = t_sessions st /\ t_cfg (fst r) = t_cfg st /\ inj_sub (t_inject (fst r)) (t_inject st)
   /\ ((t_conns (fst r) = t_conns st /\ nth 2 (snd r) 0 <> 0)
-      \/ exists c rest, t_conns (fst r) = c :: t_conns st /\ c_session c = session /\ in32 (c_ot_id c)
+      \/ exists c rest, t_conns (fst r) = c :: t_conns st /\ c_session c = session /\ in32z (c_ot_id c)
                         /\ snd r = reply_service svc :: 0 :: 0 :: 0 :: le_enc 4 (c_ot_id c) ++ rest).
 Proof.
   intros H0 Hinj. cbv zeta.
@@ -332,7 +335,7 @@ Lemma ucmm_fo {S} (h : handler S) session st rq (large : bool) :
   let r := ucmm h session st rq in
   t_sessions (fst r) = t_sessions st /\ t_cfg (fst r) = t_cfg st /\ inj_sub (t_inject (fst r)) (t_inject st)
   /\ ((t_conns (fst r) = t_conns st /\ nth 2 (snd r) 0 <> 0)
-      \/ exists c rest, t_conns (fst r) = c :: t_conns st /\ c_session c = session /\ in32 (c_ot_id c)
+      \/ exists c rest, t_conns (fst r) = c :: t_conns st /\ c_session c = session /\ in32z (c_ot_id c)
                         /\ snd r = reply_service (mr_service rq) :: 0 :: 0 :: 0 :: le_enc 4 (c_ot_id c) ++ rest).
 Proof.
   intros Hp Hs Hinj. cbv zeta. unfold ucmm. rewrite Hp. cbv zeta. rewrite Hs.
@@ -481,7 +484,7 @@ Definition effect_post {S} (e : effect) (bs : bytes) (st : tstate S) (r : tstate
       t_sessions (fst r) = t_sessions st
       /\ ((t_conns (fst r) = t_conns st /\ forall raw, snd r = Some raw -> rr_refusal raw)
           \/ exists c f raw, parse_frame bs = RcOk f /\ t_conns (fst r) = c :: t_conns st /\ c_session c = f_session f
-                             /\ mem_z (f_session f) (t_sessions st) = true /\ in32 (c_ot_id c)
+                             /\ mem_z (f_session f) (t_sessions st) = true /\ in32z (c_ot_id c)
                              /\ snd r = Some raw /\ fo_success raw (c_ot_id c))
   | EFClose => t_sessions (fst r) = t_sessions st /\ exists P, t_conns (fst r) = filter P (t_conns st)
   end.
